@@ -1,1 +1,1643 @@
-//! Kani harnesses compiled as a child module of rustzx-core/src/emulator/snapshot/szx.rs (cfg(kani) only).
+//! Kani-only child module of rustzx-core/src/emulator/snapshot/szx.rs (cfg(kani)).
+//! C14 (each well-formed SZX chunk yields the described state; chunk walker dispatch; model
+//! mismatch), C15 (every chunk processor and the walker are total), C13 (SZX save = NotSupported).
+//!
+//! `szx::load` as a whole on a symbolic file is out of reach (> 20 GB), so the walker is verified
+//! with the chunk processors replaced by call recorders, and each processor on its own.
+#![allow(dead_code)]
+use super::*;
+use crate::{
+    emulator::{
+        snapshot::sna::verif_hooks::{
+            has_pending_prefix, noop_refresh, noop_screen_clocks, seed_pending_dd_prefix, Fault, SparseRecorder, CTX,
+            FAULT_NONE, NO_FAULT, NO_WITNESS,
+        },
+        verif_hooks::{controller, cpu, mk_emulator},
+    },
+    error::{Error, IoError},
+    verif_hooks::VHost,
+    zx::{
+        controller::{verif_hooks as ch, ZXController},
+        machine::ZXMachine,
+        memory::{verif_hooks::SHORT_PAGE, Page},
+        video::screen::ZXScreen,
+    },
+};
+
+// ================================================================================================
+// SZX ("zx-state") format, written from the public format description (Spectaculator docs):
+//   file header : "ZXST" | major | minor | machine id (0 16K, 1 48K, 2 128K, ...) | flags
+//   block header: 4-char id | u32 LE size
+//   Z80R (37)   : AF BC DE HL AF' BC' DE' HL' IX IY SP PC (u16 LE) | I R IFF1 IFF2 IM |
+//                 dwCyclesStart u32 | chHoldIntReqCycles | chFlags (1 EILAST, 2 HALTED, 4 FSET) | wMemPtr
+//   SPCR (8)    : border | 7ffd | 1ffd/eff7 | fe | 4 reserved
+//   AY\0\0 (18) : flags (1 Fuller, 2 128AY) | current register | 16 registers
+//   KEYB (5)    : u32 flags | joystick type
+//   AMXM (7)    : type (0 none, 1 AMX, 2 Kempston) | 3 ctrl A | 3 ctrl B
+//   RAMP (3+n)  : u16 flags (1 = zlib compressed) | page number | data (16384 when stored)
+// ================================================================================================
+
+#[derive(Clone, Copy)]
+struct ZAbs {
+    af: u16,
+    bc: u16,
+    de: u16,
+    hl: u16,
+    af_alt: u16,
+    bc_alt: u16,
+    de_alt: u16,
+    hl_alt: u16,
+    ix: u16,
+    iy: u16,
+    sp: u16,
+    pc: u16,
+    i: u8,
+    r: u8,
+    iff1: bool,
+    iff2: bool,
+    im: u8,
+    cycles: u32,
+    hold: u8,
+    eilast: bool,
+    halted: bool,
+    fset: bool,
+    junk_flags: u8,
+    memptr: u16,
+}
+
+fn any_zabs() -> ZAbs {
+    let z = ZAbs {
+        af: kani::any(),
+        bc: kani::any(),
+        de: kani::any(),
+        hl: kani::any(),
+        af_alt: kani::any(),
+        bc_alt: kani::any(),
+        de_alt: kani::any(),
+        hl_alt: kani::any(),
+        ix: kani::any(),
+        iy: kani::any(),
+        sp: kani::any(),
+        pc: kani::any(),
+        i: kani::any(),
+        r: kani::any(),
+        iff1: kani::any(),
+        iff2: kani::any(),
+        im: kani::any(),
+        cycles: kani::any(),
+        hold: kani::any(),
+        eilast: kani::any(),
+        halted: kani::any(),
+        fset: kani::any(),
+        junk_flags: kani::any(),
+        memptr: kani::any(),
+    };
+    kani::assume(z.im <= 2);
+    // the format says EILAST and HALTED are mutually exclusive
+    kani::assume(!(z.eilast && z.halted));
+    // a frame is at most 70908 T-states long
+    kani::assume(z.cycles < 69888);
+    z
+}
+
+fn put16(b: &mut [u8], off: usize, v: u16) {
+    b[off] = v as u8;
+    b[off + 1] = (v >> 8) as u8;
+}
+
+/// spec encoder: Z80R chunk body (`nz` = the non-zero byte used for a set IFF flag)
+fn spec_z80r(z: &ZAbs, nz: u8) -> [u8; 37] {
+    let mut b = [0u8; 37];
+    put16(&mut b, 0, z.af);
+    put16(&mut b, 2, z.bc);
+    put16(&mut b, 4, z.de);
+    put16(&mut b, 6, z.hl);
+    put16(&mut b, 8, z.af_alt);
+    put16(&mut b, 10, z.bc_alt);
+    put16(&mut b, 12, z.de_alt);
+    put16(&mut b, 14, z.hl_alt);
+    put16(&mut b, 16, z.ix);
+    put16(&mut b, 18, z.iy);
+    put16(&mut b, 20, z.sp);
+    put16(&mut b, 22, z.pc);
+    b[24] = z.i;
+    b[25] = z.r;
+    b[26] = if z.iff1 { nz } else { 0 };
+    b[27] = if z.iff2 { nz } else { 0 };
+    b[28] = z.im;
+    b[29] = z.cycles as u8;
+    b[30] = (z.cycles >> 8) as u8;
+    b[31] = (z.cycles >> 16) as u8;
+    b[32] = (z.cycles >> 24) as u8;
+    b[33] = z.hold;
+    b[34] = (z.junk_flags & !7) | (z.eilast as u8) | ((z.halted as u8) << 1) | ((z.fset as u8) << 2);
+    put16(&mut b, 35, z.memptr);
+    b
+}
+
+/// "what the machine was doing before": arbitrary registers and control flags, optionally a
+/// pending DD prefix produced by really executing DD DD
+fn dirty(e: &mut Emulator<VHost>, with_prefix: bool) {
+    let c = cpu(e);
+    if with_prefix {
+        seed_pending_dd_prefix(c);
+    }
+    c.halted = kani::any();
+    c.skip_interrupt = kani::any();
+    c.regs.set_af(kani::any());
+    c.regs.set_bc(kani::any());
+    c.regs.set_de(kani::any());
+    c.regs.set_hl(kani::any());
+    c.regs.exx();
+    c.regs.swap_af_alt();
+    c.regs.set_af(kani::any());
+    c.regs.set_bc(kani::any());
+    c.regs.set_de(kani::any());
+    c.regs.set_hl(kani::any());
+    c.regs.set_ix(kani::any());
+    c.regs.set_iy(kani::any());
+    c.regs.set_sp(kani::any());
+    c.regs.set_pc(kani::any());
+    c.regs.set_i(kani::any());
+    c.regs.set_r(kani::any());
+    c.regs.set_iff1(kani::any());
+    c.regs.set_iff2(kani::any());
+    let im: u8 = kani::any();
+    kani::assume(im <= 2);
+    c.set_im(im);
+}
+
+fn check_z80r_regs(e: &mut Emulator<VHost>, z: &ZAbs) {
+    let c = cpu(e);
+    kani::assert(c.regs.get_af() == z.af, "c14.szx.z80r.af");
+    kani::assert(c.regs.get_bc() == z.bc, "c14.szx.z80r.bc");
+    kani::assert(c.regs.get_de() == z.de, "c14.szx.z80r.de");
+    kani::assert(c.regs.get_hl() == z.hl, "c14.szx.z80r.hl");
+    kani::assert(c.regs.get_ix() == z.ix, "c14.szx.z80r.ix");
+    kani::assert(c.regs.get_iy() == z.iy, "c14.szx.z80r.iy");
+    kani::assert(c.regs.get_sp() == z.sp, "c14.szx.z80r.sp");
+    kani::assert(c.regs.get_i() == z.i, "c14.szx.z80r.i");
+    kani::assert(c.regs.get_r() == z.r, "c14.szx.z80r.r");
+    kani::assert(c.regs.get_iff1() == z.iff1, "c14.szx.z80r.iff1");
+    kani::assert(c.regs.get_iff2() == z.iff2, "c14.szx.z80r.iff2");
+    kani::assert(u8::from(c.get_im()) == z.im, "c14.szx.z80r.im");
+    kani::assert(c.halted == z.halted, "c14.szx.z80r.halted_flag");
+    kani::assert(c.skip_interrupt == z.eilast, "c14.szx.z80r.ei_pending");
+    c.regs.exx();
+    c.regs.swap_af_alt();
+    kani::assert(c.regs.get_af() == z.af_alt, "c14.szx.z80r.af_alt");
+    kani::assert(c.regs.get_bc() == z.bc_alt, "c14.szx.z80r.bc_alt");
+    kani::assert(c.regs.get_de() == z.de_alt, "c14.szx.z80r.de_alt");
+    kani::assert(c.regs.get_hl() == z.hl_alt, "c14.szx.z80r.hl_alt");
+    c.regs.exx();
+    c.regs.swap_af_alt();
+}
+
+// ------------------------------------------------------------------------------------------------
+// C14 / Z80R
+// ------------------------------------------------------------------------------------------------
+
+// @harness
+// @prop C14
+// @tier quick
+// @timeout 600
+// @fn szx::process_z80r_block; Z80::set_im; Regs setters
+// @sym every field of the Z80R chunk through the spec encoder (registers, I, R, IFF1/2 with arbitrary non-zero encoding, IM 0..2, cycle counter < 69888, EILAST, FSET, MEMPTR, undefined flag bits); receiver: all registers, halted, EI-pending, both machines
+// @assert all registers, IFF1, IFF2, IM equal the chunk; halted flag and EI-pending equal the chunk flags; PC = chunk PC; whatever the receiver held before
+// @bound one chunk; not halted (see KF-C14-4) and no prefix pending in the receiver (see KF-C14-1)
+// @assume chunk HALTED flag clear (complement: KF-C14-4, c14_known_szx_halted_pc); receiver not between a DD/FD prefix and its opcode (complement: KF-C14-1, c14_known_szx_prefix_survives)
+// @outside T-state position inside the frame (dwCyclesStart) is not one of the items the statement lists
+#[kani::proof]
+#[kani::unwind(40)]
+fn c14_szx_z80r_running() {
+    let m = [ZXMachine::Sinclair48K, ZXMachine::Sinclair128K];
+    let mut i = 0;
+    while i < 2 {
+        let z = any_zabs();
+        kani::assume(!z.halted);
+        let nz: u8 = kani::any();
+        kani::assume(nz != 0);
+        let body = spec_z80r(&z, nz);
+        let mut e = mk_emulator(m[i], CTX);
+        dirty(&mut e, false);
+        process_z80r_block(&mut e, &body);
+        check_z80r_regs(&mut e, &z);
+        kani::assert(cpu(&mut e).regs.get_pc() == z.pc, "c14.szx.z80r.pc");
+        kani::cover!(z.eilast && z.iff1 && !z.iff2 && z.im == 2 && z.hl_alt != z.hl, "EI-last chunk with all fields free");
+        i += 1;
+    }
+}
+
+// @harness
+// @prop C14
+// @tier quick
+// @timeout 600
+// @expect known:KF-C14-4
+// @fn szx::process_z80r_block
+// @sym every Z80R field, HALTED set
+// @assert the machine is halted at the HALT: the interrupt return address (rustzx: PC+1 while halted) is the chunk's PC -- or, reading the chunk PC as the address of the HALT itself, PC = chunk PC.  Either reading is accepted.
+// @bound one chunk, 48K
+// @assume chunk HALTED flag set (the region excluded from c14_szx_z80r_running)
+#[kani::proof]
+#[kani::unwind(40)]
+fn c14_known_szx_halted_pc() {
+    let z = any_zabs();
+    kani::assume(z.halted);
+    let body = spec_z80r(&z, 1);
+    let mut e = mk_emulator(ZXMachine::Sinclair48K, CTX);
+    dirty(&mut e, false);
+    process_z80r_block(&mut e, &body);
+    check_z80r_regs(&mut e, &z);
+    let pc = cpu(&mut e).regs.get_pc();
+    kani::assert(pc.wrapping_add(1) == z.pc || pc == z.pc, "c14.szx.z80r.halted_return_address");
+    kani::cover!(true, "reached");
+}
+
+// @harness
+// @prop C14
+// @tier quick
+// @timeout 600
+// @expect known:KF-C14-1
+// @fn szx::process_z80r_block; Z80::emulate (to create and to observe the pending prefix)
+// @sym every Z80R field; receiver executed DD DD just before the load
+// @assert after the Z80R chunk the next opcode is decoded unprefixed
+// @bound one chunk, 48K; one instruction on a 4-byte bus to observe
+// @assume receiver between DD and its opcode (the region excluded from c14_szx_z80r_running)
+#[kani::proof]
+#[kani::unwind(40)]
+fn c14_known_szx_prefix_survives() {
+    let z = any_zabs();
+    kani::assume(!z.halted);
+    let body = spec_z80r(&z, 1);
+    let mut e = mk_emulator(ZXMachine::Sinclair48K, CTX);
+    dirty(&mut e, true);
+    process_z80r_block(&mut e, &body);
+    kani::assert(!has_pending_prefix(cpu(&mut e)), "c14.szx.z80r.no_prefix_pending_after_load");
+    kani::cover!(true, "reached");
+}
+
+// @harness
+// @prop C14
+// @tier quick
+// @timeout 300
+// @fn Z80::emulate
+// @sym registers
+// @assert self-check of the observation device: a CPU that executed DD DD reports a pending prefix, a fresh CPU does not
+// @bound two instruction steps on a 4-byte bus
+#[kani::proof]
+#[kani::unwind(8)]
+fn c14_prefix_observer_selfcheck() {
+    let mut a = rustzx_z80::Z80::default();
+    a.regs.set_hl(kani::any());
+    a.regs.set_ix(kani::any());
+    let mut b = rustzx_z80::Z80::default();
+    b.regs.set_hl(kani::any());
+    b.regs.set_ix(kani::any());
+    seed_pending_dd_prefix(&mut b);
+    kani::assert(!has_pending_prefix(&mut a), "c14.observer.clean_cpu_has_no_prefix");
+    kani::assert(has_pending_prefix(&mut b), "c14.observer.dd_dd_leaves_prefix");
+    kani::cover!(true, "reached");
+}
+
+// ------------------------------------------------------------------------------------------------
+// C14 / SPCR
+// ------------------------------------------------------------------------------------------------
+
+fn spec_spcr(border: u8, p7ffd: u8, p1ffd: u8, fe: u8, reserved: [u8; 4]) -> [u8; 8] {
+    [border, p7ffd, p1ffd, fe, reserved[0], reserved[1], reserved[2], reserved[3]]
+}
+
+// @harness
+// @prop C14
+// @tier quick
+// @timeout 600
+// @fn szx::process_spcr_block; ZXController::write_7ffd; ZXController::write_io; ZXColor::from_bits
+// @sym border 0..7, port 7FFD byte (all 256), 1FFD byte, FE byte, reserved bytes; receiver border and (128K) unlocked 7FFD latch written through the real port
+// @assert border = chunk border; 128K: latch, lock, bank at C000, ROM, screen bank as the 7FFD byte says; 48K: map untouched
+// @bound one chunk per machine (48K file id 1 into 48K machine, 128K file id 2 into 128K machine)
+// @stub ZXScreen::process_clocks -> no-op (write_io advances the beam)
+// @assume receiver paging not locked (complement: KF-C14-2)
+// @outside beeper/MIC level carried by chFe (not an item the statement lists)
+// @replay solver-only
+#[kani::proof]
+#[kani::unwind(10)]
+#[kani::stub(ZXScreen::process_clocks, noop_screen_clocks)]
+fn c14_szx_spcr() {
+    let border: u8 = kani::any();
+    kani::assume(border <= 7);
+    let p7: u8 = kani::any();
+    let body = spec_spcr(border, p7, kani::any(), kani::any(), kani::any());
+    // 128K
+    let mut e = mk_emulator(ZXMachine::Sinclair128K, CTX);
+    let l0: u8 = kani::any();
+    kani::assume(l0 & 0x20 == 0);
+    controller(&mut e).write_7ffd(l0);
+    controller(&mut e).set_border_color(0, crate::verif_hooks::any_color());
+    process_spcr_block(&mut e, 2, &body);
+    let c = controller(&mut e);
+    kani::assert(u8::from(c.border_color) == border, "c14.szx.spcr.border_128");
+    kani::assert(c.read_7ffd() == p7, "c14.szx.spcr.latch");
+    kani::assert(ch::paging_enabled(c) == (p7 & 0x20 == 0), "c14.szx.spcr.lock");
+    kani::assert(c.memory.get_page(0xC000) == Page::Ram(p7 & 7), "c14.szx.spcr.map_c000");
+    kani::assert(c.memory.get_page(0x0000) == Page::Rom((p7 >> 4) & 1), "c14.szx.spcr.map_rom");
+    kani::assert(c.memory.get_page(0x4000) == Page::Ram(5) && c.memory.get_page(0x8000) == Page::Ram(2), "c14.szx.spcr.map_fixed");
+    kani::assert(ch::screen_bank(c) == if p7 & 8 != 0 { 7 } else { 5 }, "c14.szx.spcr.screen_bank");
+    // 48K
+    let mut e = mk_emulator(ZXMachine::Sinclair48K, CTX);
+    controller(&mut e).set_border_color(0, crate::verif_hooks::any_color());
+    process_spcr_block(&mut e, 1, &body);
+    let c = controller(&mut e);
+    kani::assert(u8::from(c.border_color) == border, "c14.szx.spcr.border_48");
+    kani::assert(c.memory.get_page(0xC000) == Page::Ram(2) && c.memory.get_page(0x0000) == Page::Rom(0), "c14.szx.spcr.map_48_untouched");
+    kani::cover!(p7 == 0x3F && border == 6 && l0 == 0x17, "locking latch with shadow screen");
+}
+
+// @harness
+// @prop C14
+// @tier quick
+// @timeout 600
+// @expect known:KF-C14-2
+// @fn szx::process_spcr_block; ZXController::write_7ffd
+// @sym SPCR bytes; receiver latch with the lock bit set
+// @assert a 128K SPCR chunk applied to a machine whose paging is locked installs the chunk's latch
+// @bound one chunk
+// @stub ZXScreen::process_clocks -> no-op
+// @assume receiver paging locked (the region excluded from c14_szx_spcr)
+// @replay solver-only
+#[kani::proof]
+#[kani::unwind(10)]
+#[kani::stub(ZXScreen::process_clocks, noop_screen_clocks)]
+fn c14_known_szx_spcr_locked_machine() {
+    let p7: u8 = kani::any();
+    let body = spec_spcr(0, p7, 0, 0, [0; 4]);
+    let mut e = mk_emulator(ZXMachine::Sinclair128K, CTX);
+    let l0: u8 = kani::any();
+    kani::assume(l0 & 0x20 != 0 && l0 != p7);
+    controller(&mut e).write_7ffd(l0);
+    process_spcr_block(&mut e, 2, &body);
+    kani::assert(controller(&mut e).read_7ffd() == p7, "c14.szx.spcr.latch");
+    kani::cover!(true, "reached");
+}
+
+// @harness
+// @prop C14
+// @tier quick
+// @timeout 600
+// @fn szx::process_z80r_block; szx::process_spcr_block
+// @sym Z80R fields, SPCR bytes (border 0..7), 128K
+// @assert applying Z80R then SPCR or SPCR then Z80R gives the same registers, flags, border, latch, lock and map ("chunks in any order")
+// @bound two chunks, 128K, both orders
+// @stub ZXScreen::process_clocks -> no-op
+// @outside T-state position inside the frame: see KF-C14-6 (c14_known_szx_chunk_order_shifts_clock)
+// @replay solver-only
+#[kani::proof]
+#[kani::unwind(40)]
+#[kani::stub(ZXScreen::process_clocks, noop_screen_clocks)]
+fn c14_szx_z80r_spcr_commute() {
+    let z = any_zabs();
+    kani::assume(!z.halted);
+    let zb = spec_z80r(&z, 1);
+    let border: u8 = kani::any();
+    kani::assume(border <= 7);
+    let p7: u8 = kani::any();
+    let sb = spec_spcr(border, p7, 0, kani::any(), [0; 4]);
+    let mut e1 = mk_emulator(ZXMachine::Sinclair128K, CTX);
+    let mut e2 = mk_emulator(ZXMachine::Sinclair128K, CTX);
+    process_z80r_block(&mut e1, &zb);
+    process_spcr_block(&mut e1, 2, &sb);
+    process_spcr_block(&mut e2, 2, &sb);
+    process_z80r_block(&mut e2, &zb);
+    check_z80r_regs(&mut e1, &z);
+    check_z80r_regs(&mut e2, &z);
+    kani::assert(cpu(&mut e1).regs.get_pc() == cpu(&mut e2).regs.get_pc(), "c14.szx.order.pc");
+    let (c1, c2) = (controller(&mut e1).read_7ffd(), controller(&mut e2).read_7ffd());
+    kani::assert(c1 == c2 && c1 == p7, "c14.szx.order.latch");
+    kani::assert(u8::from(e1.border_color()) == border && u8::from(e2.border_color()) == border, "c14.szx.order.border");
+    kani::assert(controller(&mut e1).memory.get_page(0xC000) == controller(&mut e2).memory.get_page(0xC000), "c14.szx.order.map");
+    kani::cover!(z.eilast && p7 == 0x11, "reached with free fields");
+}
+
+// @harness
+// @prop C14
+// @tier quick
+// @timeout 600
+// @expect known:KF-C14-6
+// @fn szx::process_z80r_block; szx::process_spcr_block; ZXController::write_io
+// @sym Z80R fields, SPCR bytes, 48K
+// @assert the T-state position inside the frame after loading does not depend on whether Z80R precedes SPCR ("chunks in any order ... machines that behave identically")
+// @bound two chunks, both orders
+// @stub ZXScreen::process_clocks -> no-op
+// @replay solver-only
+#[kani::proof]
+#[kani::unwind(40)]
+#[kani::stub(ZXScreen::process_clocks, noop_screen_clocks)]
+fn c14_known_szx_chunk_order_shifts_clock() {
+    let z = any_zabs();
+    kani::assume(!z.halted);
+    let zb = spec_z80r(&z, 1);
+    let sb = spec_spcr(0, 0, 0, kani::any(), [0; 4]);
+    let mut e1 = mk_emulator(ZXMachine::Sinclair48K, CTX);
+    let mut e2 = mk_emulator(ZXMachine::Sinclair48K, CTX);
+    process_z80r_block(&mut e1, &zb);
+    process_spcr_block(&mut e1, 1, &sb);
+    process_spcr_block(&mut e2, 1, &sb);
+    process_z80r_block(&mut e2, &zb);
+    kani::assert(controller(&mut e1).frame_clocks == controller(&mut e2).frame_clocks, "c14.szx.order.frame_clock");
+    kani::assert(controller(&mut e1).frame_clocks == z.cycles as usize, "c14.szx.z80r.frame_clock_is_chunk_value");
+    kani::cover!(true, "reached");
+}
+
+// ------------------------------------------------------------------------------------------------
+// C14 / AMXM, KEYB
+// ------------------------------------------------------------------------------------------------
+
+// @harness
+// @prop C14
+// @tier quick
+// @timeout 300
+// @fn szx::process_amxm_block; szx::process_keyb_block
+// @sym mouse type 0..2, control bytes; receiver with or without a mouse; KEYB bytes
+// @assert Kempston mouse present afterwards iff the chunk type is 2 (Kempston), independent of the receiver; KEYB leaves mouse presence alone
+// @bound one AMXM chunk then one KEYB chunk, 48K
+#[kani::proof]
+#[kani::unwind(10)]
+fn c14_szx_amxm_mouse_presence() {
+    let ty: u8 = kani::any();
+    kani::assume(ty <= 2);
+    let body: [u8; 7] = [ty, kani::any(), kani::any(), kani::any(), kani::any(), kani::any(), kani::any()];
+    let mut s = crate::emulator::verif_hooks::mk_settings(ZXMachine::Sinclair48K);
+    s.mouse_enabled = kani::any();
+    s.kempston_enabled = kani::any();
+    let mut e = crate::emulator::verif_hooks::mk_emulator_with(s, CTX);
+    process_amxm_block(&mut e, &body);
+    kani::assert(controller(&mut e).mouse.is_some() == (ty == 2), "c14.szx.amxm.mouse_presence");
+    let kb: [u8; 5] = kani::any();
+    process_keyb_block(&mut e, &kb);
+    kani::assert(controller(&mut e).mouse.is_some() == (ty == 2), "c14.szx.keyb.leaves_mouse");
+    kani::cover!(ty == 2, "kempston mouse");
+    kani::cover!(ty == 1, "AMX mouse (unsupported -> none)");
+}
+
+// ------------------------------------------------------------------------------------------------
+// C14 / RAMP (stored pages; zlib pages are outside reach)
+// ------------------------------------------------------------------------------------------------
+
+/// one stored RAMP chunk for the shortened page: flags, page number, SHORT_PAGE data bytes
+fn spec_ramp_stored(page_no: u8, data: [u8; SHORT_PAGE], flag_junk: u16) -> [u8; 3 + SHORT_PAGE] {
+    let mut b = [0u8; 3 + SHORT_PAGE];
+    let flags = flag_junk & !1;
+    b[0] = flags as u8;
+    b[1] = (flags >> 8) as u8;
+    b[2] = page_no;
+    let mut i = 0;
+    while i < SHORT_PAGE {
+        b[3 + i] = data[i];
+        i += 1;
+    }
+    b
+}
+
+fn c14_ramp_body(machine: ZXMachine, machine_id: u32, page_no: u8, bank: u8, cpu_base: Option<u16>) {
+    let data: [u8; SHORT_PAGE] = kani::any();
+    let body = spec_ramp_stored(page_no, data, kani::any());
+    let mut e = mk_emulator(machine, CTX);
+    controller(&mut e).memory.ram_page_data_mut(bank)[0] = kani::any();
+    let r = process_ramp_block(&mut e, machine_id, &body);
+    kani::assert(r.is_ok(), "c14.szx.ramp.accepted");
+    let mut w = 0;
+    while w < SHORT_PAGE {
+        kani::assert(controller(&mut e).memory.ram_page_data(bank)[w] == data[w], "c14.szx.ramp.ram_witness");
+        if let Some(a) = cpu_base {
+            kani::assert(e.peek(a + w as u16) == data[w], "c14.szx.ramp.ram_witness_cpu_view");
+        }
+        w += 1;
+    }
+}
+
+// @harness
+// @prop C14
+// @tier quick
+// @timeout 900
+// @fn szx::process_ramp_block
+// @sym the first 8 data bytes of the page, undefined flag bits; 128K bank enumerated 0..7, 48K pages 5, 2, 0
+// @assert a stored page lands where the file says: 48K file: page 5 -> 4000, 2 -> 8000, 0 -> C000 (seen through the CPU map); 128K file: page n -> bank n (5, 2, 0 also through the CPU map); data byte k of the chunk is byte k of the page
+// @bound eleven chunks; page size abstracted to 8 bytes by the stub (the real 16384-byte copy through the chunk buffer exhausts CBMC at 10 GB)
+// @stub ZXMemory::ram_page_data_mut -> same existence check, slice shortened to the first 8 bytes of the page
+// @outside zlib-compressed pages (miniz_oxide inflate over a symbolic stream is out of reach); bytes 8..16383 of a page (slice copy, no per-offset logic)
+// @replay solver-only
+#[kani::proof]
+#[kani::unwind(10)]
+#[kani::stub(crate::zx::memory::ZXMemory::ram_page_data_mut, crate::zx::memory::verif_hooks::short_ram_page_data_mut)]
+fn c14_szx_ramp_stored_pages() {
+    c14_ramp_body(ZXMachine::Sinclair48K, 1, 5, 0, Some(0x4000));
+    c14_ramp_body(ZXMachine::Sinclair48K, 1, 2, 1, Some(0x8000));
+    c14_ramp_body(ZXMachine::Sinclair48K, 0, 0, 2, Some(0xC000));
+    c14_ramp_body(ZXMachine::Sinclair128K, 2, 0, 0, Some(0xC000));
+    c14_ramp_body(ZXMachine::Sinclair128K, 2, 1, 1, None);
+    c14_ramp_body(ZXMachine::Sinclair128K, 2, 2, 2, Some(0x8000));
+    c14_ramp_body(ZXMachine::Sinclair128K, 2, 3, 3, None);
+    c14_ramp_body(ZXMachine::Sinclair128K, 2, 4, 4, None);
+    c14_ramp_body(ZXMachine::Sinclair128K, 2, 5, 5, Some(0x4000));
+    c14_ramp_body(ZXMachine::Sinclair128K, 2, 6, 6, None);
+    c14_ramp_body(ZXMachine::Sinclair128K, 2, 7, 7, None);
+    kani::cover!(true, "eleven pages placed");
+}
+
+// @harness
+// @prop C14
+// @tier quick
+// @timeout 600
+// @fn szx::process_ramp_block
+// @sym page number, data
+// @assert without the zlib feature a compressed page is refused with Err(ZlibNotSupported)
+// @bound one chunk of 3..40 bytes for each of the 48K file's pages 5, 2, 0
+// @outside builds with feature zlib (inflate is out of reach)
+#[kani::proof]
+#[kani::unwind(10)]
+fn c14_szx_ramp_compressed_refused_without_zlib() {
+    let pages: [u8; 3] = [5, 2, 0];
+    let mut i = 0;
+    while i < 3 {
+        let mut data: [u8; 40] = kani::any();
+        let len: usize = kani::any();
+        kani::assume(len >= 3 && len <= 40);
+        kani::assume(data[0] & 1 == 1);
+        data[2] = pages[i];
+        let mut e = mk_emulator(ZXMachine::Sinclair48K, CTX);
+        let r = process_ramp_block(&mut e, 1, &data[..len]);
+        kani::assert(matches!(r, Err(Error::SnapshotLoad(SnapshotLoadError::ZlibNotSupported))), "c14.szx.ramp.compressed_refused");
+        kani::cover!(len == 3, "shortest chunk");
+        i += 1;
+    }
+}
+
+// ================================================================================================
+// C15 / chunk processors on 0..40 arbitrary bytes
+// ================================================================================================
+
+/// replaces `core::str::from_utf8` where the harness restricts the bytes to ASCII or to one byte
+/// that can never occur in UTF-8: exact on that domain (the real validator's word-at-a-time
+/// fast path does not finish under CBMC)
+fn ascii_only_from_utf8(v: &[u8]) -> core::result::Result<&str, core::str::Utf8Error> {
+    let mut i = 0;
+    while i < v.len() {
+        if v[i] >= 0x80 {
+            let mut bad = [0xFFu8];
+            return match core::str::from_utf8_mut(&mut bad) {
+                Err(e) => Err(e),
+                Ok(_) => unreachable!(),
+            };
+        }
+        i += 1;
+    }
+    Ok(unsafe { core::str::from_utf8_unchecked(v) })
+}
+
+fn any_chunk() -> ([u8; 40], usize) {
+    let data: [u8; 40] = kani::any();
+    let len: usize = kani::any();
+    kani::assume(len <= 40);
+    (data, len)
+}
+
+// @harness
+// @prop C15
+// @tier quick
+// @timeout 600
+// @fn szx::process_z80r_block; Z80::set_im
+// @sym chunk bytes 37..40 long, all values; both machines
+// @assert no panic / overflow (Kani checks); afterwards the CPU state is one C01/C02 accept (IM in 0..2 by construction)
+// @bound one chunk
+// @assume chunk length >= 37 (shorter: KF-C15-3) and IM byte <= 2 (larger: KF-C15-4)
+#[kani::proof]
+#[kani::unwind(10)]
+fn c15_szx_z80r_total() {
+    let (data, len) = any_chunk();
+    kani::assume(len >= 37);
+    kani::assume(data[28] <= 2);
+    let mut e = mk_emulator(ZXMachine::Sinclair48K, CTX);
+    process_z80r_block(&mut e, &data[..len]);
+    let mut e = mk_emulator(ZXMachine::Sinclair128K, CTX);
+    process_z80r_block(&mut e, &data[..len]);
+    kani::cover!(len == 40 && data[34] == 0xFF, "longest chunk, all flags");
+    kani::cover!(len == 37, "exact chunk");
+}
+
+// @harness
+// @prop C15
+// @tier quick
+// @timeout 600
+// @expect known:KF-C15-3
+// @fn szx::process_z80r_block
+// @sym chunk bytes, length 0..36
+// @assert a Z80R chunk shorter than 37 bytes does not panic
+// @bound one chunk
+// @assume length < 37 (the region excluded from c15_szx_z80r_total)
+#[kani::proof]
+#[kani::unwind(10)]
+fn c15_known_szx_z80r_short_chunk() {
+    let (data, len) = any_chunk();
+    kani::assume(len < 37);
+    kani::assume(len <= 28 || data[28] <= 2);
+    let mut e = mk_emulator(ZXMachine::Sinclair48K, CTX);
+    process_z80r_block(&mut e, &data[..len]);
+    kani::cover!(true, "reached");
+}
+
+// @harness
+// @prop C15
+// @tier quick
+// @timeout 600
+// @expect known:KF-C15-4
+// @fn szx::process_z80r_block; Z80::set_im
+// @sym chunk bytes, IM byte >= 3
+// @assert a full-length Z80R chunk with an interrupt-mode byte outside 0..2 does not panic
+// @bound one chunk
+// @assume IM byte >= 3 (the region excluded from c15_szx_z80r_total)
+#[kani::proof]
+#[kani::unwind(10)]
+fn c15_known_szx_z80r_im_byte() {
+    let (data, len) = any_chunk();
+    kani::assume(len >= 37 && data[28] >= 3);
+    let mut e = mk_emulator(ZXMachine::Sinclair48K, CTX);
+    process_z80r_block(&mut e, &data[..len]);
+    kani::cover!(true, "reached");
+}
+
+// @harness
+// @prop C15
+// @tier quick
+// @timeout 600
+// @fn szx::process_spcr_block; ZXController::write_7ffd; ZXController::write_io; ZXColor::from_bits
+// @sym chunk bytes 4..40 long, machine id byte 0..2, both machines (also mismatching ids); receiver frame clock anywhere in the frame
+// @assert no panic / overflow; memory map afterwards names existing pages
+// @bound one chunk
+// @stub ZXScreen::process_clocks -> no-op
+// @assume chunk length >= 4 (shorter: KF-C15-3) and border byte <= 7 (larger: KF-C15-5)
+// @replay solver-only
+#[kani::proof]
+#[kani::unwind(10)]
+#[kani::stub(ZXScreen::process_clocks, noop_screen_clocks)]
+fn c15_szx_spcr_total() {
+    let (data, len) = any_chunk();
+    kani::assume(len >= 4);
+    kani::assume(data[0] <= 7);
+    let id: u32 = kani::any();
+    kani::assume(id <= 2);
+    let fc: usize = kani::any();
+    kani::assume(fc < 69888);
+    let mut e = mk_emulator(ZXMachine::Sinclair48K, CTX);
+    controller(&mut e).frame_clocks = fc;
+    process_spcr_block(&mut e, id, &data[..len]);
+    kani::assert(controller(&mut e).memory.get_page(0xC000) == Page::Ram(2), "c15.szx.spcr.map_48");
+    let mut e = mk_emulator(ZXMachine::Sinclair128K, CTX);
+    controller(&mut e).frame_clocks = fc;
+    process_spcr_block(&mut e, id, &data[..len]);
+    let ok = match controller(&mut e).memory.get_page(0xC000) {
+        Page::Ram(p) => p < 8,
+        Page::Rom(_) => false,
+    };
+    kani::assert(ok, "c15.szx.spcr.map_128");
+    kani::cover!(len == 4 && id == 2 && data[1] == 0xFF, "shortest chunk, all latch bits");
+}
+
+// @harness
+// @prop C15
+// @tier quick
+// @timeout 600
+// @expect known:KF-C15-3
+// @fn szx::process_spcr_block
+// @sym chunk bytes, length 0..3
+// @assert an SPCR chunk shorter than 4 bytes does not panic
+// @bound one chunk
+// @stub ZXScreen::process_clocks -> no-op
+// @assume length < 4
+// @replay solver-only
+#[kani::proof]
+#[kani::unwind(10)]
+#[kani::stub(ZXScreen::process_clocks, noop_screen_clocks)]
+fn c15_known_szx_spcr_short_chunk() {
+    let (data, len) = any_chunk();
+    kani::assume(len < 4);
+    kani::assume(data[0] <= 7);
+    let mut e = mk_emulator(ZXMachine::Sinclair128K, CTX);
+    process_spcr_block(&mut e, 2, &data[..len]);
+    kani::cover!(true, "reached");
+}
+
+// @harness
+// @prop C15
+// @tier quick
+// @timeout 600
+// @expect known:KF-C15-5
+// @fn szx::process_spcr_block; ZXColor::from_bits
+// @sym chunk bytes, border byte >= 8
+// @assert an SPCR chunk whose border byte is outside 0..7 does not panic
+// @bound one chunk
+// @stub ZXScreen::process_clocks -> no-op
+// @assume border byte > 7 (the region excluded from c15_szx_spcr_total)
+// @replay solver-only
+#[kani::proof]
+#[kani::unwind(10)]
+#[kani::stub(ZXScreen::process_clocks, noop_screen_clocks)]
+fn c15_known_szx_spcr_border_byte() {
+    let (data, len) = any_chunk();
+    kani::assume(len >= 8 && data[0] > 7);
+    let mut e = mk_emulator(ZXMachine::Sinclair48K, CTX);
+    process_spcr_block(&mut e, 1, &data[..len]);
+    kani::cover!(true, "reached");
+}
+
+// @harness
+// @prop C15
+// @tier quick
+// @timeout 600
+// @fn szx::process_keyb_block; szx::process_amxm_block
+// @sym chunk bytes, KEYB length 5..40, AMXM length 1..40
+// @assert no panic / overflow
+// @bound one chunk each
+// @assume KEYB length >= 5, AMXM length >= 1 (shorter: KF-C15-3)
+#[kani::proof]
+#[kani::unwind(10)]
+fn c15_szx_keyb_amxm_total() {
+    let (data, len) = any_chunk();
+    let mut e = mk_emulator(ZXMachine::Sinclair48K, CTX);
+    if len >= 5 {
+        process_keyb_block(&mut e, &data[..len]);
+    }
+    if len >= 1 {
+        process_amxm_block(&mut e, &data[..len]);
+    }
+    kani::cover!(len == 1, "one-byte AMXM");
+    kani::cover!(len == 5 && data[4] == 1, "KEYB selecting a joystick");
+}
+
+// @harness
+// @prop C15
+// @tier quick
+// @timeout 600
+// @expect known:KF-C15-3
+// @fn szx::process_keyb_block; szx::process_amxm_block
+// @sym chunk bytes, KEYB length 0..4 / AMXM length 0
+// @assert short KEYB / empty AMXM chunks do not panic
+// @bound one chunk each
+// @assume KEYB length < 5
+#[kani::proof]
+#[kani::unwind(10)]
+fn c15_known_szx_keyb_amxm_short_chunk() {
+    let (data, len) = any_chunk();
+    kani::assume(len < 5);
+    let mut e = mk_emulator(ZXMachine::Sinclair48K, CTX);
+    if kani::any() {
+        process_keyb_block(&mut e, &data[..len]);
+    } else {
+        kani::assume(len == 0);
+        process_amxm_block(&mut e, &data[..len]);
+    }
+    kani::cover!(true, "reached");
+}
+
+// @harness
+// @prop C15
+// @tier quick
+// @timeout 900
+// @fn szx::process_crtr_block; core::str::from_utf8
+// @sym chunk bytes 37..40 long with a 7-bit ASCII creator name
+// @assert no panic / overflow
+// @bound one chunk
+// @assume length >= 37 (shorter: KF-C15-3); the 33 name bytes are < 0x80 (otherwise: KF-C15-6)
+// @stub core::str::from_utf8 -> ASCII-only validator (exact on the harness domain: bytes < 0x80, or one byte that is never valid UTF-8)
+// @replay solver-only
+#[kani::proof]
+#[kani::unwind(42)]
+#[kani::stub(core::str::from_utf8, ascii_only_from_utf8)]
+fn c15_szx_crtr_total() {
+    let (data, len) = any_chunk();
+    kani::assume(len >= 37);
+    let mut i = 0;
+    while i < 33 {
+        kani::assume(data[i] < 0x80);
+        i += 1;
+    }
+    let mut e = mk_emulator(ZXMachine::Sinclair48K, CTX);
+    process_crtr_block(&mut e, &data[..len]);
+    kani::cover!(len == 37, "exact chunk");
+}
+
+// @harness
+// @prop C15
+// @tier quick
+// @timeout 900
+// @expect known:KF-C15-3
+// @fn szx::process_crtr_block
+// @sym chunk bytes, length 0..36
+// @assert a CRTR chunk shorter than 37 bytes does not panic
+// @bound one chunk
+// @assume length < 37, name bytes ASCII
+// @stub core::str::from_utf8 -> ASCII-only validator (exact on the harness domain: bytes < 0x80, or one byte that is never valid UTF-8)
+// @replay solver-only
+#[kani::proof]
+#[kani::unwind(42)]
+#[kani::stub(core::str::from_utf8, ascii_only_from_utf8)]
+fn c15_known_szx_crtr_short_chunk() {
+    let (data, len) = any_chunk();
+    kani::assume(len < 37);
+    let mut i = 0;
+    while i < 33 {
+        kani::assume(data[i] < 0x80);
+        i += 1;
+    }
+    let mut e = mk_emulator(ZXMachine::Sinclair48K, CTX);
+    process_crtr_block(&mut e, &data[..len]);
+    kani::cover!(true, "reached");
+}
+
+// @harness
+// @prop C15
+// @tier quick
+// @timeout 900
+// @expect known:KF-C15-6
+// @fn szx::process_crtr_block; core::str::from_utf8
+// @sym chunk bytes, first name byte >= 0x80 followed by an ASCII byte (invalid UTF-8)
+// @assert a CRTR chunk whose creator name is not UTF-8 does not panic
+// @bound one chunk of 37 bytes
+// @assume name starts with a byte in 0x80..0xBF or 0xF8..0xFF (never valid UTF-8)
+// @stub core::str::from_utf8 -> ASCII-only validator (exact on the harness domain: bytes < 0x80, or one byte that is never valid UTF-8)
+// @replay solver-only
+#[kani::proof]
+#[kani::unwind(42)]
+#[kani::stub(core::str::from_utf8, ascii_only_from_utf8)]
+fn c15_known_szx_crtr_name_not_utf8() {
+    let mut data = [0x41u8; 37];
+    let b: u8 = kani::any();
+    kani::assume((b >= 0x80 && b <= 0xBF) || b >= 0xF8);
+    data[0] = b;
+    let mut e = mk_emulator(ZXMachine::Sinclair48K, CTX);
+    process_crtr_block(&mut e, &data);
+    kani::cover!(true, "reached");
+}
+
+// @harness
+// @prop C15
+// @tier quick
+// @timeout 600
+// @fn szx::process_ramp_block; ZXMemory::ram_page_data_mut
+// @sym chunk bytes 3..40 long with the compressed flag set, page number valid for the machine, machine id 0..2
+// @assert no panic / overflow; Err (no zlib in this build)
+// @bound one chunk per machine
+// @assume length >= 3 (shorter: KF-C15-3); page number exists on the machine after the 48K renumbering (otherwise: KF-C15-7); compressed flag set (stored data shorter than 16384: KF-C15-3)
+// @outside builds with feature zlib
+#[kani::proof]
+#[kani::unwind(10)]
+fn c15_szx_ramp_small_total() {
+    let (data, len) = any_chunk();
+    kani::assume(len >= 3 && data[0] & 1 == 1);
+    let id: u32 = kani::any();
+    kani::assume(id <= 2);
+    let page = data[2];
+    let mapped = if id < 2 { match page { 5 => 0, 2 => 1, 0 => 2, p => p } } else { page };
+    if mapped < 3 {
+        let mut e = mk_emulator(ZXMachine::Sinclair48K, CTX);
+        let r = process_ramp_block(&mut e, id, &data[..len]);
+        kani::assert(r.is_err(), "c15.szx.ramp.compressed_is_err_48");
+    }
+    if mapped < 8 {
+        let mut e = mk_emulator(ZXMachine::Sinclair128K, CTX);
+        let r = process_ramp_block(&mut e, id, &data[..len]);
+        kani::assert(r.is_err(), "c15.szx.ramp.compressed_is_err_128");
+    }
+    kani::cover!(mapped == 7 && id == 2 && len == 3, "bank 7, shortest chunk");
+    kani::cover!(mapped == 2 && id == 1 && page == 0, "48K renumbering of page 0");
+}
+
+// @harness
+// @prop C15
+// @tier quick
+// @timeout 600
+// @expect known:KF-C15-3
+// @fn szx::process_ramp_block
+// @sym chunk bytes 0..40 long, stored (uncompressed) flag or length < 3
+// @assert a RAMP chunk that is too short (header cut, or stored data shorter than 16384 bytes) does not panic
+// @bound one chunk, 128K machine, page number valid
+// @assume length < 3, or compressed flag clear with data < 16384 bytes
+#[kani::proof]
+#[kani::unwind(10)]
+fn c15_known_szx_ramp_short_chunk() {
+    let (data, len) = any_chunk();
+    kani::assume(len < 3 || (data[0] & 1 == 0 && data[2] < 8));
+    let mut e = mk_emulator(ZXMachine::Sinclair128K, CTX);
+    let _ = process_ramp_block(&mut e, 2, &data[..len]);
+    kani::cover!(true, "reached");
+}
+
+// @harness
+// @prop C15
+// @tier quick
+// @timeout 600
+// @expect known:KF-C15-7
+// @fn szx::process_ramp_block; ZXMemory::ram_page_data_mut
+// @sym page number not present on the machine (>= 3 after renumbering on 48K, >= 8 on 128K), other bytes
+// @assert a RAMP chunk naming a RAM page the machine does not have is refused without panic
+// @bound one chunk
+// @assume page number out of range (the region excluded from c15_szx_ramp_small_total)
+#[kani::proof]
+#[kani::unwind(10)]
+fn c15_known_szx_ramp_bad_page() {
+    let (data, len) = any_chunk();
+    kani::assume(len >= 3 && data[0] & 1 == 1);
+    if kani::any() {
+        kani::assume(data[2] >= 8);
+        let mut e = mk_emulator(ZXMachine::Sinclair128K, CTX);
+        let _ = process_ramp_block(&mut e, 2, &data[..len]);
+    } else {
+        kani::assume(data[2] != 0 && data[2] != 2 && data[2] != 5 && data[2] >= 3);
+        let mut e = mk_emulator(ZXMachine::Sinclair48K, CTX);
+        let _ = process_ramp_block(&mut e, 1, &data[..len]);
+    }
+    kani::cover!(true, "reached");
+}
+
+// ================================================================================================
+// C13 / SZX save
+// ================================================================================================
+
+// @harness
+// @prop C13
+// @tier quick
+// @timeout 300
+// @fn szx::save; Emulator::save_snapshot
+// @sym registers
+// @assert saving as SZX is refused with SnapshotSaveError::NotSupported, writes nothing and leaves the registers alone (outside the SNA round trip by design)
+// @bound one call
+#[kani::proof]
+#[kani::unwind(10)]
+fn c13_szx_save_not_supported() {
+    let mut e = mk_emulator(ZXMachine::Sinclair48K, CTX);
+    let hl: u16 = kani::any();
+    cpu(&mut e).regs.set_hl(hl);
+    let mut rec = SparseRecorder::new(NO_WITNESS);
+    let r = e.save_snapshot(crate::host::SnapshotRecorder::Szx(&mut rec));
+    kani::assert(matches!(r, Err(Error::SnapshotSave(SnapshotSaveError::NotSupported))), "c13.szx.save_not_supported");
+    kani::assert(rec.len == 0 && cpu(&mut e).regs.get_hl() == hl, "c13.szx.save_no_effect");
+    kani::cover!(true, "reached");
+}
+
+// ================================================================================================
+// chunk walker (szx::load) with the chunk processors replaced by call recorders
+// ================================================================================================
+
+/// Ordinary small file (<= 48 bytes) with optional fault injection; remembers the largest read
+/// request, which for `szx::load` is the size of the chunk buffer it has just allocated.
+pub(crate) struct SmallAsset {
+    pub data: [u8; 48],
+    pub len: usize,
+    pub pos: usize,
+    pub fault: Fault,
+    pub calls: u8,
+    pub fault_hit: bool,
+    pub max_req: usize,
+}
+
+impl SmallAsset {
+    fn new(data: [u8; 48], len: usize) -> Self {
+        SmallAsset { data, len, pos: 0, fault: FAULT_NONE, calls: 0, fault_hit: false, max_req: 0 }
+    }
+    fn tick(&mut self) -> bool {
+        let idx = self.calls;
+        self.calls = self.calls.saturating_add(1);
+        if self.fault.at != NO_FAULT && idx == self.fault.at {
+            self.fault_hit = true;
+            true
+        } else {
+            false
+        }
+    }
+}
+
+impl LoadableAsset for &mut SmallAsset {
+    fn read(&mut self, buf: &mut [u8]) -> core::result::Result<usize, IoError> {
+        if buf.len() > self.max_req {
+            self.max_req = buf.len();
+        }
+        let faulty = self.tick();
+        if faulty && self.fault.kind == 0 {
+            return Err(IoError::HostAssetImplFailed);
+        }
+        if self.pos >= self.len || buf.is_empty() || (faulty && self.fault.kind == 2) {
+            return Ok(0);
+        }
+        let mut n = buf.len().min(self.len - self.pos);
+        if faulty && self.fault.kind == 1 && self.fault.n > 0 && self.fault.n < n {
+            n = self.fault.n;
+        }
+        let mut i = 0;
+        while i < 48 && i < n {
+            buf[i] = self.data[self.pos + i];
+            i += 1;
+        }
+        self.pos += n;
+        Ok(n)
+    }
+}
+
+impl SeekableAsset for &mut SmallAsset {
+    fn seek(&mut self, pos: SeekFrom) -> core::result::Result<usize, IoError> {
+        if self.tick() {
+            return Err(IoError::HostAssetImplFailed);
+        }
+        let new_pos: i128 = match pos {
+            SeekFrom::Start(p) => p as i128,
+            SeekFrom::End(d) => self.len as i128 + d as i128,
+            SeekFrom::Current(d) => self.pos as i128 + d as i128,
+        };
+        if new_pos < 0 {
+            return Err(IoError::SeekBeforeStart);
+        }
+        self.pos = new_pos as usize;
+        Ok(self.pos)
+    }
+}
+
+#[derive(Clone, Copy, PartialEq, Eq)]
+struct Call {
+    which: u8,
+    mid: u32,
+    len: usize,
+    first: u8,
+}
+const NOCALL: Call = Call { which: 0, mid: 0, len: 0, first: 0 };
+static mut CALLS: [Call; 4] = [NOCALL; 4];
+static mut NCALLS: usize = 0;
+const NO_MID: u32 = 0xFFFF;
+
+fn rec(which: u8, mid: u32, d: &[u8]) {
+    unsafe {
+        if NCALLS < 4 {
+            CALLS[NCALLS] = Call { which, mid, len: d.len(), first: if d.is_empty() { 0 } else { d[0] } };
+        }
+        NCALLS += 1;
+    }
+}
+fn reset_calls() {
+    unsafe {
+        NCALLS = 0;
+        CALLS = [NOCALL; 4];
+    }
+}
+fn stub_crtr<H: Host>(_: &mut Emulator<H>, d: &[u8]) {
+    rec(1, NO_MID, d)
+}
+fn stub_z80r<H: Host>(_: &mut Emulator<H>, d: &[u8]) {
+    rec(2, NO_MID, d)
+}
+fn stub_spcr<H: Host>(_: &mut Emulator<H>, mid: u32, d: &[u8]) {
+    rec(3, mid, d)
+}
+fn stub_keyb<H: Host>(_: &mut Emulator<H>, d: &[u8]) {
+    rec(4, NO_MID, d)
+}
+fn stub_amxm<H: Host>(_: &mut Emulator<H>, d: &[u8]) {
+    rec(5, NO_MID, d)
+}
+fn stub_ramp<H: Host>(_: &mut Emulator<H>, mid: u32, d: &[u8]) -> Result<()> {
+    rec(6, mid, d);
+    Ok(())
+}
+
+/// processor number the format assigns to a chunk id (0 = unknown to rustzx without AY support: skipped)
+fn spec_which(id: &[u8; 4]) -> u8 {
+    match id {
+        b"CRTR" => 1,
+        b"Z80R" => 2,
+        b"SPCR" => 3,
+        b"KEYB" => 4,
+        b"AMXM" => 5,
+        b"RAMP" => 6,
+        _ => 0,
+    }
+}
+
+/// spec encoder: file header + chunks (id, size, data) laid out back to back
+fn spec_file(machine_id: u8, ver: (u8, u8), flags: u8, chunks: &[([u8; 4], u32, [u8; 8])], claimed: &[u32]) -> ([u8; 48], usize) {
+    let mut f = [0u8; 48];
+    f[0] = b'Z';
+    f[1] = b'X';
+    f[2] = b'S';
+    f[3] = b'T';
+    f[4] = ver.0;
+    f[5] = ver.1;
+    f[6] = machine_id;
+    f[7] = flags;
+    let mut p = 8;
+    let mut c = 0;
+    while c < chunks.len() {
+        let (id, size, data) = chunks[c];
+        let mut i = 0;
+        while i < 4 {
+            f[p + i] = id[i];
+            f[p + 4 + i] = (claimed[c] >> (8 * i)) as u8;
+            i += 1;
+        }
+        p += 8;
+        let mut i = 0;
+        while i < 8 && (i as u32) < size {
+            f[p + i] = data[i];
+            i += 1;
+        }
+        p += size as usize;
+        c += 1;
+    }
+    (f, p)
+}
+
+/// chunk data sizes used with ID_PAIRS (a symbolic size makes the position, hence the id bytes, of
+/// the second chunk symbolic and the query does not finish)
+const SIZE_PAIRS: [(u32, u32); 6] = [(0, 8), (8, 0), (3, 5), (1, 1), (8, 8), (5, 2)];
+
+const ID_PAIRS: [([u8; 4], [u8; 4]); 6] = [
+    (*b"Z80R", *b"SPCR"),
+    (*b"SPCR", *b"RAMP"),
+    (*b"RAMP", *b"Z80R"),
+    (*b"KEYB", *b"AMXM"),
+    (*b"CRTR", *b"JOY\0"),
+    (*b"ZXTP", *b"Z80R"),
+];
+
+// @harness
+// @prop C14
+// @tier quick
+// @timeout 900
+// @fn szx::load (header check, chunk walker, dispatch on id, skipping)
+// @sym version bytes, flags byte, chunk data; chunk sizes enumerated (0,8) (8,0) (3,5) (1,1) (8,8) (5,2); chunk id pairs enumerated: (Z80R,SPCR) (SPCR,RAMP) (RAMP,Z80R) (KEYB,AMXM) (CRTR,unknown) (unknown,Z80R); machine id 1 on 48K / 2 on 128K
+// @assert load returns Ok; every known chunk is handed to its processor exactly once, in file order, with exactly its data (length, first byte) and the header's machine id; unknown chunks are skipped; nothing else is called
+// @bound two chunks of at most 8 data bytes per file, six id pairs x two machines
+// @stub szx::process_{crtr,z80r,spcr,keyb,amxm,ramp}_block -> call recorders (each processor is verified on its own above); ZXController::refresh_memory_dependent_devices -> no-op; core::str::from_utf8 -> ASCII-only validator (the real one does not finish under CBMC even on 4 concrete bytes)
+// @outside non-ASCII / lower-case ids (to_uppercase Unicode tables); more than two chunks (the loop body is identical per chunk)
+// @replay solver-only
+#[kani::proof]
+#[kani::unwind(50)]
+#[kani::stub(process_crtr_block, stub_crtr)]
+#[kani::stub(process_z80r_block, stub_z80r)]
+#[kani::stub(process_spcr_block, stub_spcr)]
+#[kani::stub(process_keyb_block, stub_keyb)]
+#[kani::stub(process_amxm_block, stub_amxm)]
+#[kani::stub(process_ramp_block, stub_ramp)]
+#[kani::stub(ZXController::refresh_memory_dependent_devices, noop_refresh)]
+#[kani::stub(core::str::from_utf8, ascii_only_from_utf8)]
+fn c14_szx_walker_dispatch() {
+    let mut k = 0;
+    while k < 6 {
+        let (id1, id2) = ID_PAIRS[k];
+        let (s1, s2): (u32, u32) = SIZE_PAIRS[k];
+        let (d1, d2): ([u8; 8], [u8; 8]) = (kani::any(), kani::any());
+        let machine = if k % 2 == 0 { ZXMachine::Sinclair48K } else { ZXMachine::Sinclair128K };
+        let mid: u8 = if k % 2 == 0 { 1 } else { 2 };
+        let (file, len) = spec_file(mid, (kani::any(), kani::any()), kani::any(), &[(id1, s1, d1), (id2, s2, d2)], &[s1, s2]);
+        let mut asset = SmallAsset::new(file, len);
+        let mut e = mk_emulator(machine, CTX);
+        reset_calls();
+        let r = load(&mut e, &mut asset);
+        kani::assert(r.is_ok(), "c14.szx.walker.accepted");
+        let (w1, w2) = (spec_which(&id1), spec_which(&id2));
+        let want1 = Call { which: w1, mid: if w1 == 3 || w1 == 6 { mid as u32 } else { NO_MID }, len: s1 as usize, first: if s1 > 0 { d1[0] } else { 0 } };
+        let want2 = Call { which: w2, mid: if w2 == 3 || w2 == 6 { mid as u32 } else { NO_MID }, len: s2 as usize, first: if s2 > 0 { d2[0] } else { 0 } };
+        unsafe {
+            let expected_n = (w1 != 0) as usize + (w2 != 0) as usize;
+            kani::assert(NCALLS == expected_n, "c14.szx.walker.number_of_dispatches");
+            if w1 != 0 {
+                kani::assert(CALLS[0] == want1, "c14.szx.walker.first_chunk_dispatch");
+                if w2 != 0 {
+                    kani::assert(CALLS[1] == want2, "c14.szx.walker.second_chunk_dispatch");
+                }
+            } else if w2 != 0 {
+                kani::assert(CALLS[0] == want2, "c14.szx.walker.chunk_after_unknown_dispatch");
+            }
+        }
+        kani::cover!(k == 5 && d1[0] == 0x5A, "last pair reached with free data");
+        k += 1;
+    }
+}
+
+// @harness
+// @prop C14
+// @tier quick
+// @timeout 900
+// @expect known:KF-C14-3
+// @fn szx::load
+// @sym chunk size / data
+// @assert an SZX file whose header names another model than the emulator's (128K file -> 48K machine, 48K file -> 128K machine) is rejected with Err before any chunk is applied
+// @bound one chunk per file
+// @stub chunk processors -> call recorders; refresh -> no-op; core::str::from_utf8 -> ASCII-only validator
+// @replay solver-only
+#[kani::proof]
+#[kani::unwind(50)]
+#[kani::stub(process_crtr_block, stub_crtr)]
+#[kani::stub(process_z80r_block, stub_z80r)]
+#[kani::stub(process_spcr_block, stub_spcr)]
+#[kani::stub(process_keyb_block, stub_keyb)]
+#[kani::stub(process_amxm_block, stub_amxm)]
+#[kani::stub(process_ramp_block, stub_ramp)]
+#[kani::stub(ZXController::refresh_memory_dependent_devices, noop_refresh)]
+#[kani::stub(core::str::from_utf8, ascii_only_from_utf8)]
+fn c14_known_szx_model_mismatch_accepted() {
+    let d: [u8; 8] = kani::any();
+    let swap: bool = kani::any();
+    let (machine, mid) = if swap { (ZXMachine::Sinclair48K, 2u8) } else { (ZXMachine::Sinclair128K, 1u8) };
+    let (file, len) = spec_file(mid, (1, 4), 0, &[(*b"RAMP", 8, d)], &[8]);
+    let mut asset = SmallAsset::new(file, len);
+    let mut e = mk_emulator(machine, CTX);
+    reset_calls();
+    let r = load(&mut e, &mut asset);
+    kani::assert(r.is_err(), "c14.szx.model_mismatch_rejected");
+    unsafe {
+        kani::assert(NCALLS == 0, "c14.szx.model_mismatch_nothing_applied");
+    }
+    kani::cover!(true, "reached");
+}
+
+/// two-chunk file Z80R(3 bytes) SPCR(5 bytes) with free data, version, flags and machine id
+fn c15_two_chunk_file() -> ([u8; 48], usize) {
+    spec_file(kani::any(), (kani::any(), kani::any()), kani::any(), &[(*b"Z80R", 3, kani::any()), (*b"SPCR", 5, kani::any())], &[3, 5])
+}
+
+// Asset call sequence of szx::load on that file (S = seek, R = read_exact):
+//   S S R(hdr) S | R(blk hdr) S R(data) S | R(blk hdr) S R(data) S | R(blk hdr -> EOF)     calls 0..12
+
+// @harness
+// @prop C15
+// @tier quick
+// @timeout 900
+// @fn szx::load (header check, chunk walker, dispatch); LoadableAsset::read_exact
+// @sym version, machine id 0..255, flags, chunk data; fault kind Err at every asset call 0..12, 1-byte short read and premature Ok(0) at every read call
+// @assert no panic / overflow; loops terminate within the unwinding bound; at most 20 asset calls; no read request larger than the file; an asset failure while reading the file header or chunk data surfaces as Err
+// @bound one two-chunk file of 32 bytes; 27 concrete fault placements + fault-free
+// @stub chunk processors -> call recorders; refresh -> no-op; core::str::from_utf8 -> ASCII-only validator
+// @outside more than two chunks; a failing read of a *chunk header* ends the walk with Ok (rustzx treats every error there as end of file; Ok is an allowed outcome of C15)
+// @replay solver-only
+#[kani::proof]
+#[kani::unwind(50)]
+#[kani::stub(process_crtr_block, stub_crtr)]
+#[kani::stub(process_z80r_block, stub_z80r)]
+#[kani::stub(process_spcr_block, stub_spcr)]
+#[kani::stub(process_keyb_block, stub_keyb)]
+#[kani::stub(process_amxm_block, stub_amxm)]
+#[kani::stub(process_ramp_block, stub_ramp)]
+#[kani::stub(ZXController::refresh_memory_dependent_devices, noop_refresh)]
+#[kani::stub(core::str::from_utf8, ascii_only_from_utf8)]
+fn c15_szx_walker_faults() {
+    let faults: [(u8, u8); 27] = [
+        (0, 0), (1, 0), (2, 0), (3, 0), (4, 0), (5, 0), (6, 0), (7, 0), (8, 0), (9, 0), (10, 0), (11, 0), (12, 0),
+        (2, 1), (4, 1), (6, 1), (8, 1), (10, 1), (12, 1), (2, 2), (4, 2), (6, 2), (8, 2), (10, 2), (12, 2), (13, 0), (14, 1),
+    ];
+    let mut e = mk_emulator(ZXMachine::Sinclair48K, CTX);
+    let mut oks = 0u8;
+    let mut errs = 0u8;
+    let mut i = 0;
+    while i <= 27 {
+        let (file, len) = c15_two_chunk_file();
+        kani::assume(file[6] <= 2);
+        let mut asset = SmallAsset::new(file, len);
+        if i < 27 {
+            asset.fault = Fault { at: faults[i].0, kind: faults[i].1, n: 1 };
+        }
+        reset_calls();
+        let r = load(&mut e, &mut asset);
+        kani::assert(asset.calls <= 20, "c15.szx.walker.bounded_number_of_asset_calls");
+        kani::assert(asset.max_req <= len, "c15.szx.walker.allocation_in_proportion");
+        if i < 27 && asset.fault_hit && faults[i].1 != 1 && (faults[i].0 <= 3 || faults[i].0 == 6 || faults[i].0 == 10) {
+            kani::assert(r.is_err(), "c15.szx.walker.asset_failure_surfaces_as_err");
+        }
+        if i == 27 {
+            kani::assert(r.is_ok() && unsafe { NCALLS } == 2, "c15.szx.walker.fault_free_file_loads");
+        }
+        if r.is_ok() {
+            oks += 1;
+        } else {
+            errs += 1;
+        }
+        i += 1;
+    }
+    kani::cover!(oks >= 1 && errs >= 10, "faults surface, fault-free load succeeds");
+}
+
+// @harness
+// @prop C15
+// @tier quick
+// @timeout 900
+// @fn szx::load (header check, machine id check, chunk walker)
+// @sym magic bytes (ASCII or never-valid-UTF-8 bytes), version, machine id 0..255, flags, chunk data; file truncated at every length 0..32
+// @assert no panic / overflow; bounded asset calls; no read request larger than 8 bytes beyond what the chunk headers claim (3 and 5); wrong magic or machine id > 2 is Err; a file cut inside the header or inside chunk data is Err
+// @bound the two-chunk file cut at each of its 33 lengths
+// @stub chunk processors -> call recorders; refresh -> no-op; core::str::from_utf8 -> ASCII-only validator
+// @replay solver-only
+#[kani::proof]
+#[kani::unwind(50)]
+#[kani::stub(process_crtr_block, stub_crtr)]
+#[kani::stub(process_z80r_block, stub_z80r)]
+#[kani::stub(process_spcr_block, stub_spcr)]
+#[kani::stub(process_keyb_block, stub_keyb)]
+#[kani::stub(process_amxm_block, stub_amxm)]
+#[kani::stub(process_ramp_block, stub_ramp)]
+#[kani::stub(ZXController::refresh_memory_dependent_devices, noop_refresh)]
+#[kani::stub(core::str::from_utf8, ascii_only_from_utf8)]
+fn c15_szx_walker_truncated() {
+    let mut e = mk_emulator(ZXMachine::Sinclair128K, CTX);
+    let mut len = 0usize;
+    let mut oks = 0u8;
+    while len <= 32 {
+        let (mut file, _) = c15_two_chunk_file();
+        let magic: [u8; 4] = kani::any();
+        let mut i = 0;
+        while i < 4 {
+            kani::assume(magic[i] < 0x80 || magic[i] >= 0xF8);
+            file[i] = magic[i];
+            i += 1;
+        }
+        let mut asset = SmallAsset::new(file, len);
+        reset_calls();
+        let r = load(&mut e, &mut asset);
+        kani::assert(asset.calls <= 20, "c15.szx.walker.bounded_number_of_asset_calls");
+        kani::assert(asset.max_req <= 8, "c15.szx.walker.allocation_in_proportion");
+        let magic_ok = magic[0] == b'Z' && magic[1] == b'X' && magic[2] == b'S' && magic[3] == b'T';
+        if len < 8 || !magic_ok || file[6] > 2 {
+            kani::assert(r.is_err(), "c15.szx.walker.bad_header_is_err");
+        }
+        if (len > 16 && len < 19) || (len > 27 && len < 32) {
+            kani::assert(r.is_err(), "c15.szx.walker.cut_chunk_data_is_err");
+        }
+        if r.is_ok() {
+            oks += 1;
+        }
+        len += 1;
+    }
+    kani::cover!(oks >= 1, "some truncations still load");
+}
+
+// @harness
+// @prop C15
+// @tier quick
+// @timeout 900
+// @expect known:KF-C15-8
+// @fn szx::load (chunk buffer allocation)
+// @sym nothing (size field 0xFFFFFFFF; a symbolic size field did not finish in 600 s); the file ends right after the chunk header
+// @assert the buffer szx::load allocates for a chunk (observed as the length of the read request that follows) is no larger than the file
+// @bound file of 8 + 8 bytes
+// @stub chunk processors -> call recorders; refresh -> no-op; core::str::from_utf8 -> ASCII-only validator
+// @assume claimed size > bytes left in the file (the walker harnesses above use honest size fields)
+// @replay solver-only
+#[kani::proof]
+#[kani::unwind(50)]
+#[kani::stub(process_crtr_block, stub_crtr)]
+#[kani::stub(process_z80r_block, stub_z80r)]
+#[kani::stub(process_spcr_block, stub_spcr)]
+#[kani::stub(process_keyb_block, stub_keyb)]
+#[kani::stub(process_amxm_block, stub_amxm)]
+#[kani::stub(process_ramp_block, stub_ramp)]
+#[kani::stub(ZXController::refresh_memory_dependent_devices, noop_refresh)]
+#[kani::stub(core::str::from_utf8, ascii_only_from_utf8)]
+fn c15_known_szx_walker_allocation() {
+    let claimed: u32 = 0xFFFF_FFFF;
+    let (file, len) = spec_file(1, (1, 4), 0, &[(*b"RAMP", 0, [0; 8])], &[claimed]);
+    let mut asset = SmallAsset::new(file, len);
+    let mut e = mk_emulator(ZXMachine::Sinclair48K, CTX);
+    let r = load(&mut e, &mut asset);
+    kani::assert(r.is_err(), "c15.szx.walker.oversized_chunk_is_err");
+    kani::assert(asset.max_req <= len, "c15.szx.walker.allocation_in_proportion");
+    kani::cover!(true, "reached");
+}
+
+// @harness
+// @prop C15
+// @tier quick
+// @timeout 900
+// @expect known:KF-C15-6
+// @fn szx::load (chunk id decoding)
+// @sym nothing (chunk id FF 41 41 41; with a symbolic byte the to_uppercase path on the Ok side does not finish)
+// @assert a chunk whose id is not valid UTF-8 is skipped or refused, without panic
+// @bound file of 8 + 8 bytes
+// @stub chunk processors -> call recorders; refresh -> no-op; core::str::from_utf8 -> ASCII-only validator
+// @assume id byte outside UTF-8 (the region excluded from c15_szx_walker_total)
+// @replay solver-only
+#[kani::proof]
+#[kani::unwind(50)]
+#[kani::stub(process_crtr_block, stub_crtr)]
+#[kani::stub(process_z80r_block, stub_z80r)]
+#[kani::stub(process_spcr_block, stub_spcr)]
+#[kani::stub(process_keyb_block, stub_keyb)]
+#[kani::stub(process_amxm_block, stub_amxm)]
+#[kani::stub(process_ramp_block, stub_ramp)]
+#[kani::stub(ZXController::refresh_memory_dependent_devices, noop_refresh)]
+#[kani::stub(core::str::from_utf8, ascii_only_from_utf8)]
+fn c15_known_szx_walker_id_not_utf8() {
+    let b: u8 = 0xFF;
+    let (file, len) = spec_file(1, (1, 4), 0, &[([b, b'A', b'A', b'A'], 0, [0; 8])], &[0]);
+    let mut asset = SmallAsset::new(file, len);
+    let mut e = mk_emulator(ZXMachine::Sinclair48K, CTX);
+    let _ = load(&mut e, &mut asset);
+    kani::cover!(true, "reached");
+}
+
+
+// ================================================================================================
+// C14 / C15: AY chunk (builds with features sound,ay only)
+// ================================================================================================
+
+#[cfg(all(feature = "sound", feature = "ay"))]
+fn sqrt_identity(x: f64) -> f64 {
+    x
+}
+
+#[cfg(all(feature = "sound", feature = "ay"))]
+static mut AY_GEN: [u8; 16] = [0; 16];
+#[cfg(all(feature = "sound", feature = "ay"))]
+static mut AY_GEN_SEEN: u16 = 0;
+
+/// replacement for the sound generator's register write: remembers what reached the generator
+#[cfg(all(feature = "sound", feature = "ay"))]
+fn gen_write_register(_ay: &mut aym::AymPrecise, address: u8, value: u8) {
+    unsafe {
+        AY_GEN[(address & 15) as usize] = value;
+        AY_GEN_SEEN |= 1 << (address & 15);
+    }
+}
+
+#[cfg(all(feature = "sound", feature = "ay"))]
+fn ay_chunk_applied(check_generator: bool) {
+    let regs: [u8; 16] = kani::any();
+    let cur: u8 = kani::any();
+    kani::assume(cur < 16);
+    let flags: u8 = kani::any();
+    let mut body = [0u8; 18];
+    body[0] = flags;
+    body[1] = cur;
+    let mut i = 0;
+    while i < 16 {
+        body[2 + i] = regs[i];
+        i += 1;
+    }
+    let mut e = mk_emulator(ZXMachine::Sinclair128K, CTX);
+    // what the machine was playing before: one arbitrary register write through the chip
+    let (r0, v0): (u8, u8) = (kani::any(), kani::any());
+    controller(&mut e).mixer.ay.select_reg(r0);
+    controller(&mut e).mixer.ay.write(v0);
+    unsafe {
+        AY_GEN_SEEN = 0;
+    }
+    process_ay_block(&mut e, 2, &body);
+    let ay = &mut controller(&mut e).mixer.ay;
+    kani::assert(ay.read() == regs[cur as usize], "c14.szx.ay.selected_register");
+    let mut i = 0u8;
+    while i < 16 {
+        ay.select_reg(i);
+        kani::assert(ay.read() == regs[i as usize], "c14.szx.ay.register_readback");
+        i += 1;
+    }
+    if check_generator {
+        unsafe {
+            kani::assert(AY_GEN_SEEN == 0xFFFF, "c14.szx.ay.every_register_reaches_generator");
+            let k: usize = kani::any();
+            kani::assume(k < 16);
+            kani::assert(AY_GEN[k] == regs[k], "c14.szx.ay.generator_register_value");
+        }
+    }
+}
+
+// @harness
+// @prop C14
+// @tier quick
+// @features sound,ay
+// @timeout 900
+// @fn szx::process_ay_block; ZXAyChip::select_reg; ZXAyChip::set_regs; ZXAyChip::read
+// @sym flags byte, selected register 0..15, all 16 register bytes; one arbitrary earlier register write in the receiver
+// @assert reading the AY data port afterwards returns the chunk's value for the chunk's selected register, and for every register after selecting it
+// @bound one chunk, 128K machine, AY enabled
+// @stub libm::sqrt -> identity (unsupported SIMD intrinsic in AymPrecise::new); <AymPrecise as AymBackend>::write_register -> recorder
+// @outside the audible state: KF-C14-5 (c14_known_szx_ay_generator_not_updated)
+// @replay solver-only
+#[cfg(all(feature = "sound", feature = "ay"))]
+#[kani::proof]
+#[kani::unwind(20)]
+#[kani::stub(libm::sqrt, sqrt_identity)]
+#[kani::stub(<aym::AymPrecise as aym::AymBackend>::write_register, gen_write_register)]
+fn c14_szx_ay_register_file() {
+    ay_chunk_applied(false);
+    kani::cover!(true, "reached");
+}
+
+// @harness
+// @prop C14
+// @tier quick
+// @features sound,ay
+// @timeout 900
+// @expect known:KF-C14-5
+// @fn szx::process_ay_block; ZXAyChip::set_regs
+// @sym as c14_szx_ay_register_file
+// @assert every one of the 16 restored registers is also written to the sound generator (AymPrecise::write_register), so that the audible state is the chunk's
+// @bound one chunk
+// @stub libm::sqrt -> identity; <AymPrecise as AymBackend>::write_register -> recorder
+// @replay solver-only
+#[cfg(all(feature = "sound", feature = "ay"))]
+#[kani::proof]
+#[kani::unwind(20)]
+#[kani::stub(libm::sqrt, sqrt_identity)]
+#[kani::stub(<aym::AymPrecise as aym::AymBackend>::write_register, gen_write_register)]
+fn c14_known_szx_ay_generator_not_updated() {
+    ay_chunk_applied(true);
+    kani::cover!(true, "reached");
+}
+
+// @harness
+// @prop C15
+// @tier quick
+// @features sound,ay
+// @timeout 900
+// @fn szx::process_ay_block; Emulator::set_ay_enabled; ZXAyChip::set_regs
+// @sym chunk bytes 18..40 long, machine id 0..2, both machines
+// @assert no panic / overflow
+// @bound one chunk per machine
+// @stub libm::sqrt -> identity
+// @assume chunk length >= 18 when the AY ends up enabled (shorter: KF-C15-3)
+// @replay solver-only
+#[cfg(all(feature = "sound", feature = "ay"))]
+#[kani::proof]
+#[kani::unwind(20)]
+#[kani::stub(libm::sqrt, sqrt_identity)]
+fn c15_szx_ay_total() {
+    let (data, len) = any_chunk();
+    kani::assume(len >= 18);
+    let id: u32 = kani::any();
+    kani::assume(id <= 2);
+    let mut e = mk_emulator(ZXMachine::Sinclair48K, CTX);
+    process_ay_block(&mut e, id, &data[..len]);
+    let mut e = mk_emulator(ZXMachine::Sinclair128K, CTX);
+    process_ay_block(&mut e, id, &data[..len]);
+    kani::cover!(id == 1 && data[0] & 2 == 0, "48K file switching the AY off");
+    kani::cover!(len == 18, "exact chunk");
+}
+
+// @harness
+// @prop C15
+// @tier quick
+// @features sound,ay
+// @timeout 900
+// @expect known:KF-C15-3
+// @fn szx::process_ay_block; ZXAyChip::set_regs
+// @sym chunk bytes, length 0..17
+// @assert an AY chunk shorter than 18 bytes does not panic
+// @bound one chunk, 128K
+// @stub libm::sqrt -> identity
+// @assume length < 18
+// @replay solver-only
+#[cfg(all(feature = "sound", feature = "ay"))]
+#[kani::proof]
+#[kani::unwind(20)]
+#[kani::stub(libm::sqrt, sqrt_identity)]
+fn c15_known_szx_ay_short_chunk() {
+    let (data, len) = any_chunk();
+    kani::assume(len < 18);
+    let mut e = mk_emulator(ZXMachine::Sinclair128K, CTX);
+    process_ay_block(&mut e, 2, &data[..len]);
+    kani::cover!(true, "reached");
+}
+
+// @harness
+// @prop C14
+// @tier quick
+// @timeout 600
+// @expect vacuity
+// @fn szx::process_z80r_block; szx::process_spcr_block
+// @bound reachability twin of c14_szx_z80r_spcr_commute
+// @stub ZXScreen::process_clocks -> no-op
+// @replay solver-only
+#[kani::proof]
+#[kani::unwind(40)]
+#[kani::stub(ZXScreen::process_clocks, noop_screen_clocks)]
+fn c14_szx_chunks_reach() {
+    let z = any_zabs();
+    kani::assume(!z.halted);
+    let zb = spec_z80r(&z, 1);
+    let sb = spec_spcr(3, kani::any(), 0, kani::any(), [0; 4]);
+    let mut e1 = mk_emulator(ZXMachine::Sinclair128K, CTX);
+    process_z80r_block(&mut e1, &zb);
+    process_spcr_block(&mut e1, 2, &sb);
+    check_z80r_regs(&mut e1, &z);
+    kani::assert(false, "c14.reach");
+}
+
+// @harness
+// @prop C15
+// @tier quick
+// @timeout 600
+// @expect vacuity
+// @fn szx::process_z80r_block; szx::process_ramp_block
+// @bound reachability twin of c15_szx_z80r_total and c15_szx_ramp_small_total
+#[kani::proof]
+#[kani::unwind(10)]
+fn c15_szx_chunks_reach() {
+    let (data, len) = any_chunk();
+    kani::assume(len >= 37 && data[28] <= 2 && data[0] & 1 == 1 && data[2] == 5);
+    let mut e = mk_emulator(ZXMachine::Sinclair128K, CTX);
+    process_z80r_block(&mut e, &data[..len]);
+    let _ = process_ramp_block(&mut e, 2, &data[..len]);
+    kani::assert(false, "c15.reach");
+}
